@@ -47,75 +47,114 @@ def gen_cases(rng, tier):
     ns = 30 if tier == "quick" else 400
     for i in range(ns):
         cases.append({"kind": "S", "cls": rng.choice(["MS", "DC"]), "N": rng.choice([1, 2, 3, 4]), "M": rng.choice([1, 2]),
-                      "order": rng.choice([1, 2, 3]), "param": rng.random() < 0.3, "form": rng.randrange(4),
+                      "order": rng.choice([1, 2, 3]), "param": rng.random() < 0.3, "form": rng.randrange(8),
+                      "order2": rng.choice([1, 2, 3]), "decl": rng.choice(["wv", "vw"]), "refine": rng.choice([2, 3, 4]),
                       "a": ocpgen.rnd(rng, -1, 1), "b": ocpgen.rnd(rng, 0.3, 2), "c": ocpgen.rnd(rng, -1.5, 1.5),
                       "grid": ocpgen.gen_grid(rng, ["uniform", "geometric", "function"], 3),
                       "t0": ocpgen.rnd(rng, -1, 1), "T": ocpgen.rnd(rng, 0.5, 3), "seed": rng.getrandbits(32)})
     return cases
 
 
-def s_expr(form, x, w, t, c, ca):
+def s_expr(form, x, w, v, t, c, ca):
     if form == 0:
         return ca.sin(x) * w + c * x * t
     if form == 1:
         return w ** 2 + c * x
     if form == 2:
         return ca.vertcat(x * w, ca.cos(w) + t * c)
-    return (x + c * w) ** 2 * ca.tanh(t)
+    if form == 3:
+        return (x + c * w) ** 2 * ca.tanh(t)
+    if form == 4:
+        return t * w ** 2 - v * x
+    if form == 5:
+        return w * x + ca.sin(v)
+    if form == 6:
+        return ca.vertcat(v * w, c * v + x)
+    return ca.sin(w) * ca.cos(v) + c * t * x
 
 
 def run_S(case):
-    """chain rule through B-spline signals: der(e(x, w, t)) = e_x f + e_w der(w) + e_t, sampled on the control grid"""
+    """chain rule through B-spline signals: der(e(x, w, v, t)) = e_x f + e_w der(w) + e_v der(v) + e_t on the control
+    grid, and der(signal) on the refined integrator grid = derivative of the spline through the refined samples"""
     import casadi as ca
     import rockit
     from ..gen import build
     from ..obs import nlp
-    res = {"sig": "S|%s|N%dM%d|o%d|%s|f%d|%s" % (case["cls"], case["N"], case["M"], case["order"], "p" if case["param"] else "v",
-                                                 case["form"], C.grid_tag(case["grid"])),
-           "evals": 0, "violations": [], "counters": {"points": 0}}
+    from ..ref import grids as G
+    from .c17 import design, spline_eval
+    two = case["form"] >= 4
+    res = {"sig": "S|%s|N%dM%d|o%d%s|%s|f%d|%s|%s" % (case["cls"], case["N"], case["M"], case["order"],
+                                                      case.get("order2", "") if two else "", "p" if case["param"] else "v",
+                                                      case["form"], case.get("decl", "wv"), C.grid_tag(case["grid"])),
+           "evals": 0, "violations": [], "counters": {"points": 0, "refined_der_points": 0}}
     rng = np.random.default_rng(case["seed"])
     a, b, c = case["a"], case["b"], case["c"]
+    N, M = case["N"], case["M"]
     try:
         ocp = rockit.Ocp(t0=case["t0"], T=case["T"])
         x = ocp.state()
         u = ocp.control()
-        if case["param"]:
-            w = ocp.parameter(grid="bspline", order=case["order"])
-            ocp.set_value(w, ca.DM(rng.standard_normal((1, case["N"] + case["order"]))))
-        else:
-            w = ocp.variable(grid="bspline", order=case["order"])
+
+        def mk(order, param):
+            if param:
+                s_ = ocp.parameter(grid="bspline", order=order)
+                ocp.set_value(s_, ca.DM(rng.standard_normal((1, N + order))))
+                return s_
+            return ocp.variable(grid="bspline", order=order)
+        w = v = None
+        for name in case.get("decl", "wv"):          # declaration order is part of the case
+            if name == "w":
+                w = mk(case["order"], case["param"])
+            elif two:
+                v = mk(case.get("order2", 2), False)
         f = a * x + u + b * w
         ocp.set_der(x, f)
-        e = s_expr(case["form"], x, w, ocp.t, c, ca)
+        e = s_expr(case["form"], x, w, v if two else 0, ocp.t, c, ca)
         de = C.call("der(e)", ocp.der, e)
+        # derivatives of the signals are requested after der(e) mentioned them in its own order
+        dv = C.call("der(v)", ocp.der, v) if two else None
         dw = C.call("der(w)", ocp.der, w)
-        ocp.add_objective(ocp.sum(u ** 2 + ca.sumsqr(w) + ca.sumsqr(de)) + ocp.at_tf(x) ** 2)
+        ocp.add_objective(ocp.sum(u ** 2 + ca.sumsqr(w) + ca.sumsqr(de) + (ca.sumsqr(v) if two else 0)) + ocp.at_tf(x) ** 2)
         if case["cls"] == "MS":
-            ocp.method(rockit.MultipleShooting(N=case["N"], M=case["M"], intg="rk", grid=build.make_grid(case["grid"])))
+            ocp.method(rockit.MultipleShooting(N=N, M=M, intg="rk", grid=build.make_grid(case["grid"])))
         else:
-            ocp.method(rockit.DirectCollocation(N=case["N"], M=case["M"], degree=3, grid=build.make_grid(case["grid"])))
+            ocp.method(rockit.DirectCollocation(N=N, M=M, degree=3, grid=build.make_grid(case["grid"])))
         ocp.solver("ipopt", {"ipopt.print_level": 0, "print_time": False})
         view = C.call("transcribe", nlp.NlpView, ocp)
-        outs = [C.call("sample", ocp.sample, q, grid="control")[1] for q in (x, u, w, dw, ocp.t, de)]
+        qs = [x, u, w, dw, ocp.t, de] + ([v, dv] if two else [])
+        outs = [C.call("sample", ocp.sample, q, grid="control")[1] for q in qs]
+        sig_pairs = [("w", w, dw, case["order"])] + ([("v", v, dv, case.get("order2", 2))] if two else [])
+        r = case.get("refine", 3)
+        for _, sg, dsg, _o in sig_pairs:
+            tt, vv = C.call("sample(refine)", ocp.sample, sg, grid="integrator", refine=r)
+            _, dd = C.call("sample(der, refine)", ocp.sample, dsg, grid="integrator", refine=r)
+            outs += [tt, vv, dd]
         F = ca.Function("s", [view.x, view.p], [ca.MX(o) for o in outs])
     except C.RockitRaised as ex:
         res["violations"].append(C.exc_violation(ID, ex, "S|" + case["cls"]))
         return res
     # independent derivative: casadi AD on our own symbols
-    xs, us, ws, dws, ts = [ca.MX.sym(n) for n in ("x", "u", "w", "dw", "t")]
-    es = s_expr(case["form"], xs, ws, ts, c, ca)
+    xs, us, ws, dws, ts, vs, dvs = [ca.MX.sym(n) for n in ("x", "u", "w", "dw", "t", "v", "dv")]
+    es = s_expr(case["form"], xs, ws, vs if two else 0, ts, c, ca)
     fs = a * xs + us + b * ws
     ref = ca.jacobian(es, xs) @ fs + ca.jacobian(es, ws) @ dws + ca.jacobian(es, ts)
-    R = ca.Function("r", [xs, us, ws, dws, ts], [ref])
+    if two:
+        ref = ref + ca.jacobian(es, vs) @ dvs
+    R = ca.Function("r", [xs, us, ws, dws, ts, vs, dvs], [ref])
+    nrm = np.array(G.normalized(case["grid"], N))
+    xi_phys = case["t0"] + case["T"] * nrm
     for it in range(3):
         wv = view.random_point(rng, 1.0)
-        X, U, W, DW, Tt, DE = [np.array(v, dtype=float) for v in F(wv, view.p0)]
-        X, U, W, DW, Tt = [v.reshape(-1) for v in (X, U, W, DW, Tt)]
-        DE = DE.reshape(-1, len(Tt)) if DE.ndim > 1 or DE.size != len(Tt) else DE.reshape(1, -1)
+        vals = [np.array(q, dtype=float) for q in F(wv, view.p0)]
+        X, U, W, DW, Tt = [q.reshape(-1) for q in vals[:5]]
+        DE = vals[5]
+        DE = DE.reshape(-1, len(Tt)) if DE.size != len(Tt) else DE.reshape(1, -1)
+        V_, DV_ = (vals[6].reshape(-1), vals[7].reshape(-1)) if two else (np.zeros(len(Tt)), np.zeros(len(Tt)))
+        min_order = min([case["order"]] + ([case.get("order2", 2)] if two else []))
         for k in range(len(Tt)):
-            if case["order"] == 1 and 0 < k < len(Tt) - 1:
-                continue       # der(w) of a degree-1 spline is discontinuous at interior knots
-            want = np.array(R(X[k], U[k], W[k], DW[k], Tt[k])).reshape(-1)
+            if min_order == 1 and 0 < k < len(Tt) - 1:
+                continue       # the derivative of a degree-1 spline is discontinuous at interior knots
+            want = np.array(R(X[k], U[k], W[k], DW[k], Tt[k], V_[k], DV_[k])).reshape(-1)
             got = DE[:, k]
             res["evals"] += 1
             res["counters"]["points"] += 1
@@ -124,12 +163,39 @@ def run_S(case):
             if np.max(np.abs(want - got)) > 1e-9 * (1 + np.max(np.abs(want))):
                 res["violations"].append({
                     "kind": "der-chain-rule-signal", "mech": "C16|S|der-with-bspline-signal",
-                    "detail": "form %d, %s bspline order %d under %s: der(e) sampled at node %d is %s, e_x f + e_w der(w) + "
-                              "e_t = %s" % (case["form"], "parametric" if case["param"] else "variable", case["order"],
-                                            case["cls"], k, C.short(got), C.short(want))})
+                    "detail": "form %d, declaration order %s, orders %s under %s: der(e) sampled at node %d is %s, e_x f + e_w "
+                              "der(w) + e_v der(v) + e_t = %s" % (case["form"], case.get("decl", "wv"),
+                                                                   (case["order"], case.get("order2")), case["cls"], k,
+                                                                   C.short(got), C.short(want))})
+                return res
+        # der(signal) on the refined integrator grid
+        off = 8 if two else 6
+        for j, (nm, _sg, _dsg, od) in enumerate(sig_pairs):
+            tt, vv, dd = [q.reshape(-1) for q in vals[off + 3 * j: off + 3 * j + 3]]
+            tt_c = np.clip(tt, xi_phys[0], xi_phys[-1])
+            for kn in xi_phys:
+                tt_c[np.abs(tt_c - kn) < 1e-9 * (1 + abs(kn))] = kn
+            A_ = design(list(xi_phys), od, tt_c).T
+            if np.linalg.matrix_rank(A_) < A_.shape[1]:
+                continue
+            coef, *_ = np.linalg.lstsq(A_, vv, rcond=None)
+            if np.max(np.abs(A_ @ coef - vv)) > 1e-8 * (1 + np.max(np.abs(vv))):
+                continue        # samples not in the spline space: C17's subject
+            want = spline_eval(list(xi_phys), od, coef.reshape(1, -1), tt_c, nu=1)[0]
+            inner = np.array([not np.any(np.abs(t_ - xi_phys) < 1e-9 * (1 + abs(t_))) for t_ in tt_c]) if od == 1 \
+                else np.ones(len(tt_c), dtype=bool)
+            res["evals"] += 1
+            res["counters"]["refined_der_points"] += int(np.sum(inner))
+            if np.any(inner) and np.max(np.abs(dd[inner] - want[inner])) > 1e-7 * (1 + np.max(np.abs(want))):
+                k_ = int(np.argmax(np.abs(dd - want) * inner))
+                res["violations"].append({
+                    "kind": "der-signal-refined", "mech": "C16|S|der-of-signal-on-refined-grid",
+                    "detail": "der(%s) (order %d, declaration order %s) sampled with grid='integrator', refine=%d under %s: "
+                              "%.6g at t=%.4g, derivative of the spline through the refined samples of %s: %.6g" % (
+                                  nm, od, case.get("decl", "wv"), case.get("refine", 3), case["cls"], dd[k_], tt[k_], nm, want[k_])})
                 return res
     res["nontrivial"] = res["counters"]["points"] > 0
-    res["sample"] = {"cls": case["cls"], "order": case["order"], "form": case["form"], "N": case["N"]}
+    res["sample"] = {"cls": case["cls"], "order": case["order"], "form": case["form"], "N": case["N"], "decl": case.get("decl", "wv")}
     return res
 
 
